@@ -109,7 +109,11 @@ func (f *frame) preservedHeaps(callee *ssa.Function) map[string]bool {
 				}
 			}
 		}
-		c.note("abstract calls in " + funcKey(root.fn) + " are assumed not to modify " + item + " (closed by the structural writers obligation on that field; other maps of the same Go type are not distinguished)")
+		if callee == nil {
+			c.note("dynamically dispatched calls in " + funcKey(root.fn) + " are assumed to leave " + item + " of every object that exists at the call untouched (an implementation may be one of the listed writers, but then only on objects it allocates itself: ASSUMED, not checked)")
+		} else {
+			c.note("abstract calls in " + funcKey(root.fn) + " are assumed not to modify " + item + " (closed by the structural writers obligation on that field; other maps of the same Go type are not distinguished)")
+		}
 	}
 	return out
 }
